@@ -64,8 +64,9 @@ def main():
 
     try:
         loader.install()
-        loader.load("osyris")  # import once in the parent; workers are forked from it
+        # contracts first: loop contracts must be registered before the osyris modules are read
         mod = importlib.import_module("contracts.%s" % prop.lower())
+        loader.load("osyris")  # import once in the parent; workers are forked from it
     except Exception:
         traceback.print_exc()
         print("CHECKER-ERROR property=%s cannot load contracts" % prop)
